@@ -138,7 +138,7 @@ Proof. intros A n v m. unfold keys. rewrite map_app. reflexivity. Qed.
 
 Lemma istep_id : forall i c, i_id (fst (istep i c)) = i_id i.
 Proof.
-  intros i c. destruct c as [s b|s|n v|n|n| |b| |b| |v| | ]; simpl; try reflexivity.
+  intros i c. destruct c as [s b|s|n v|n|n| |b| |b| |v| | | |ns]; simpl; try reflexivity.
   - destruct (nonempty v); reflexivity.
   - destruct (0 <=? n); reflexivity.
   - destruct (nonempty v); reflexivity.
@@ -146,10 +146,11 @@ Qed.
 
 Lemma istep_cur : forall i c, 0 <= i_cur i -> 0 <= i_cur (fst (istep i c)).
 Proof.
-  intros i c H. destruct c as [s b|s|n v|n|n| |b| |b| |v| | ]; simpl; try exact H.
+  intros i c H. destruct c as [s b|s|n v|n|n| |b| |b| |v| | | |ns]; simpl; try exact H.
   - destruct (nonempty v); exact H.
   - destruct (0 <=? n) eqn:E; simpl; [apply Z.leb_le; exact E | exact H].
   - destruct (nonempty v); exact H.
+  - (* Load: the current number becomes 1 *) lia.
 Qed.
 
 Definition live (st : sys) (id : Z) : option inst := if id <? 0 then None else alookup id (insts st).
@@ -504,7 +505,7 @@ Qed.
 Theorem set_switch_frame : forall i s b c, (forall b', c <> SetSw s b') -> c <> GetSw s ->
   snd (istep (fst (istep i (SetSw s b))) c) = snd (istep i c).
 Proof.
-  intros i s b c H1 H2. destruct c as [s0 b0|s0|n v|n|n| |b0| |b0| |v| | ]; simpl; try reflexivity.
+  intros i s b c H1 H2. destruct c as [s0 b0|s0|n v|n|n| |b0| |b0| |v| | | |ns]; simpl; try reflexivity.
   - assert (Hne : s0 <> s). { intros e. subst s0. apply H2. reflexivity. }
     rewrite (sw_eqb_neq s0 s Hne). reflexivity.
   - destruct (nonempty v); reflexivity.
@@ -574,6 +575,113 @@ Proof.
   intros i c. destruct c; simpl; try reflexivity; exact I.
 Qed.
 
+(** * Load / RunDefines *)
+
+(* one punch_open of a run: SELECTED_OUTPUT n gets its default file name unless a non-empty one is stored *)
+Definition rd_step (id : Z) (m : list (Z * string)) (n : Z) : list (Z * string) :=
+  match alookup n m with
+  | Some EmptyString | None => aset n (sel_default_name id n) m
+  | Some _ => m
+  end.
+
+Lemma istep_RunDefines : forall i ns, istep i (RunDefines ns) =
+  (mkInst (i_id i) (i_sw i) (i_name i) (i_cur i) (i_self i) (i_sels i) (fold_left (rd_step (i_id i)) ns (i_seln i)), RInt 0).
+Proof. intros i ns. reflexivity. Qed.
+
+Lemma rd_step_other : forall id m a n, n <> a -> alookup n (rd_step id m a) = alookup n m.
+Proof.
+  intros id m a n Hne. unfold rd_step.
+  destruct (alookup a m) as [[|ch t]|]; [|reflexivity|]; apply alookup_aset_other; exact Hne.
+Qed.
+
+Lemma rd_step_same : forall id m n, alookup n (rd_step id m n) =
+  match alookup n m with Some EmptyString | None => Some (sel_default_name id n) | Some s => Some s end.
+Proof.
+  intros id m n. unfold rd_step.
+  destruct (alookup n m) as [[|ch t]|] eqn:E; [|exact E|]; apply alookup_aset_same.
+Qed.
+
+Lemma rd_fold_frame : forall id n ns m, ~ In n ns -> alookup n (fold_left (rd_step id) ns m) = alookup n m.
+Proof.
+  intros id n ns. induction ns as [|a ns IH]; intros m Hnotin; simpl.
+  - reflexivity.
+  - rewrite IH.
+    + apply rd_step_other. intros e. apply Hnotin. left. symmetry. exact e.
+    + intros Hin. apply Hnotin. right. exact Hin.
+Qed.
+
+Lemma rd_fold_keeps_nonempty : forall id n str ns m, str <> EmptyString -> alookup n m = Some str ->
+  alookup n (fold_left (rd_step id) ns m) = Some str.
+Proof.
+  intros id n str ns. induction ns as [|a ns IH]; intros m Hstr Hl; simpl.
+  - exact Hl.
+  - apply IH; [exact Hstr|]. destruct (Z.eq_dec n a) as [e|ne].
+    + subst a. rewrite rd_step_same, Hl.
+      destruct str as [|ch t]; [exfalso; apply Hstr; reflexivity | reflexivity].
+    + rewrite rd_step_other by exact ne. exact Hl.
+Qed.
+
+Lemma rd_fold_keeps_default : forall id n ns m, alookup n m = Some (sel_default_name id n) ->
+  alookup n (fold_left (rd_step id) ns m) = Some (sel_default_name id n).
+Proof.
+  intros id n ns. induction ns as [|a ns IH]; intros m Hl; simpl.
+  - exact Hl.
+  - apply IH. destruct (Z.eq_dec n a) as [e|ne].
+    + subst a. rewrite rd_step_same, Hl.
+      destruct (sel_default_name id n) as [|ch t]; reflexivity.
+    + rewrite rd_step_other by exact ne. exact Hl.
+Qed.
+
+Lemma rd_fold_default : forall id n ns m, In n ns -> alookup n m = None ->
+  alookup n (fold_left (rd_step id) ns m) = Some (sel_default_name id n).
+Proof.
+  intros id n ns. induction ns as [|a ns IH]; intros m Hin Hl; simpl.
+  - contradiction.
+  - destruct (Z.eq_dec n a) as [e|ne].
+    + subst a. apply rd_fold_keeps_default. rewrite rd_step_same, Hl. reflexivity.
+    + destruct Hin as [Hin|Hin]; [exfalso; apply ne; symmetry; exact Hin|].
+      apply IH; [exact Hin|]. rewrite rd_step_other by exact ne. exact Hl.
+Qed.
+
+(* a run that defines SELECTED_OUTPUT n gives n its default file name (embedding n and the instance id)
+   when no name is stored for n; no NoDup hypothesis on ns is needed *)
+Theorem run_defines_default_name : forall i n ns, In n ns -> alookup n (i_seln i) = None ->
+  exists s, alookup n (i_seln (fst (istep i (RunDefines ns)))) = Some s /\ s = sel_default_name (i_id i) n.
+Proof.
+  intros i n ns Hin Hl. exists (sel_default_name (i_id i) n). split; [|reflexivity].
+  rewrite istep_RunDefines. simpl. apply rd_fold_default; assumption.
+Qed.
+
+(* ... and leaves a name set through SetSelectedOutputFileName (non-empty) alone *)
+Theorem run_defines_keeps_set_name : forall i n ns str, str <> EmptyString -> alookup n (i_seln i) = Some str ->
+  alookup n (i_seln (fst (istep i (RunDefines ns)))) = Some str.
+Proof.
+  intros i n ns str Hstr Hl. rewrite istep_RunDefines. simpl. apply rd_fold_keeps_nonempty; assumption.
+Qed.
+
+Theorem run_defines_frame : forall i n ns, ~ In n ns ->
+  alookup n (i_seln (fst (istep i (RunDefines ns)))) = alookup n (i_seln i).
+Proof.
+  intros i n ns Hnotin. rewrite istep_RunDefines. simpl. apply rd_fold_frame. exact Hnotin.
+Qed.
+
+(* a successful database load resets the per-user-number switches and the current number, nothing else *)
+Theorem load_resets_per_number_switches : forall i, let i' := fst (istep i Load) in
+  i_cur i' = 1%Z /\ i_self i' = [(1%Z, false)] /\ i_sels i' = [(1%Z, false)] /\ i_id i' = i_id i /\
+  i_seln i' = i_seln i /\ (forall s, i_sw i' s = i_sw i s) /\ (forall n, i_name i' n = i_name i n).
+Proof.
+  intros i. cbv zeta. simpl.
+  split; [reflexivity|]. split; [reflexivity|]. split; [reflexivity|]. split; [reflexivity|].
+  split; [reflexivity|]. split; [intros s; reflexivity | intros n; reflexivity].
+Qed.
+
+Theorem load_then_get_sel_switches : forall i,
+  snd (istep (fst (istep i Load)) GetSelFile) = RInt 0 /\ snd (istep (fst (istep i Load)) GetSelString) = RInt 0 /\
+  snd (istep (fst (istep i Load)) GetCur) = RInt 1.
+Proof.
+  intros i. simpl. split; [reflexivity|]. split; reflexivity.
+Qed.
+
 (* documented defaults of a fresh instance embed the id *)
 Lemma fresh_call_result : forall st ic, RInv st ->
   snd (api (fst (api st Create)) (CCall (next st) ic)) =
@@ -639,3 +747,8 @@ Print Assumptions sel_switches_are_per_user_number.
 Print Assumptions getters_do_not_change_state.
 Print Assumptions fresh_instance_defaults.
 Print Assumptions dec_examples.
+Print Assumptions run_defines_default_name.
+Print Assumptions run_defines_keeps_set_name.
+Print Assumptions run_defines_frame.
+Print Assumptions load_resets_per_number_switches.
+Print Assumptions load_then_get_sel_switches.
